@@ -182,6 +182,7 @@ type tokenizer struct {
 	textBuf  []byte
 	textMode string
 	textFrom int
+	lastEnd  int // end of the last markup token: text spans are exactly the gaps between markup tokens
 }
 
 func isWS(c byte) bool    { return c == '\t' || c == '\n' || c == '\f' || c == ' ' }
@@ -246,7 +247,7 @@ func (t *tokenizer) emitStr(s string, mode string) {
 	}
 	if len(t.textBuf) == 0 {
 		t.textMode = mode
-		t.textFrom = t.pos
+		t.textFrom = t.lastEnd
 	}
 	t.textBuf = append(t.textBuf, s...)
 }
@@ -257,17 +258,25 @@ func (t *tokenizer) emitByte(c byte, mode string) {
 	}
 	if len(t.textBuf) == 0 {
 		t.textMode = mode
-		t.textFrom = t.pos
+		t.textFrom = t.lastEnd
 	}
 	t.textBuf = append(t.textBuf, c)
 }
 
-func (t *tokenizer) flushText() {
+func (t *tokenizer) flushText() { t.flushTextAt(t.pos) }
+
+// flushTextAt ends the pending text token at byte offset end (the start of the markup token that follows,
+// or the current position at EOF / on a change of text mode).
+func (t *tokenizer) flushTextAt(end int) {
 	if len(t.textBuf) == 0 {
 		return
 	}
-	t.out = append(t.out, Token{Type: Text, Data: string(t.textBuf), Mode: t.textMode, Start: t.textFrom, End: t.pos})
+	if end < t.textFrom {
+		end = t.textFrom
+	}
+	t.out = append(t.out, Token{Type: Text, Data: string(t.textBuf), Mode: t.textMode, Start: t.textFrom, End: end})
 	t.textBuf = t.textBuf[:0]
+	t.lastEnd = end
 }
 
 func (t *tokenizer) newTag(tp TokType) {
@@ -297,8 +306,9 @@ func (t *tokenizer) finishAttr() {
 
 func (t *tokenizer) emitTag() {
 	t.finishAttr()
-	t.flushText()
+	t.flushTextAt(t.cur.Start)
 	t.cur.End = t.pos
+	t.lastEnd = t.pos
 	if t.cur.Type == EndTag {
 		// end tags carry no attributes / self-closing flag (parse errors)
 	}
@@ -325,8 +335,9 @@ func (t *tokenizer) emitTag() {
 }
 
 func (t *tokenizer) emitComment() {
-	t.flushText()
+	t.flushTextAt(t.cur.Start)
 	t.cur.End = t.pos
+	t.lastEnd = t.pos
 	t.out = append(t.out, t.cur)
 }
 
